@@ -317,10 +317,10 @@ CHECKS['C19'] = {
                    'Oracle over the activation log: per client exactly-once and in submission order, never two activations of one client at once, never more activations than pool threads (than the two pools together have, when there are two), unregister (and the unregistration implied by a move to another pool) returns only when everything submitted has been handled and no handler is running, every submitted Message is handled by the end, destruction returns, no deadlock (reported by the scheduler; threads blocked where the scheduler cannot see them are reported by the stall watchdog of the runner and count as a violation when the input blocks three times out of three). Held = no explored schedule violated these.'),
     'level_note': SC_NOTE,
     'rule': ('c19_tsan counts iterations (every case with at least 4 input bytes is non-trivial). Byte-decoded cases: configuration + per-submitter scripts + schedule. Non-trivial: an unregistration or a move to another pool was issued while Messages of that client were still outstanding, or >= 2 handlers ran in parallel with at least one preemption. Distinct: hash of configuration, scripts and choices.'),
-    'assumptions': ['clients are unregistered before they themselves are destroyed (documented requirement); the pool may be destroyed first, with clients still registered and Messages pending (a quarter of the cases): its shutdown un-registers them', 'the pool is destroyed only after the submitting threads have finished (a submission racing with the destructor is not a supported use)'],
+    'assumptions': ['clients are unregistered before they themselves are destroyed (documented requirement); the pool may be destroyed first, with clients still registered and Messages pending (a quarter of the cases): its shutdown un-registers them', 'the pool object is destroyed only after the submitting threads have finished (a submission racing with the destructor is not a supported use); its Shutdown() may come at any time'],
     'targets': [
         {'name': 'c19_threadpool', 'src': ['harness/C19_threadpool.cpp'], 'quick_n': 100000, 'thorough_n': 800000, 'maxlen': 400, 'min_nontrivial': 20000, 'budget': 120, 'stall_is_violation': True,
-         'class_floors': {'case_handlers_ran_in_parallel': 5000, 'case_more_clients_than_pool_threads': 15000, 'case_unregister_with_messages_outstanding': 10000, 'case_pool_destroyed_with_clients_registered': 10000, 'case_pool_destroyed_with_messages_pending': 2000, 'case_client_moved_to_another_pool_with_messages_outstanding': 3000, 'case_handler_submitted_follow_up_during_a_pool_move': 1500}},
+         'class_floors': {'case_handlers_ran_in_parallel': 5000, 'case_more_clients_than_pool_threads': 15000, 'case_unregister_with_messages_outstanding': 10000, 'case_pool_destroyed_with_clients_registered': 10000, 'case_pool_destroyed_with_messages_pending': 2000, 'case_client_moved_to_another_pool_with_messages_outstanding': 3000, 'case_handler_submitted_follow_up_during_a_pool_move': 1500, 'case_pool_shut_down_while_submitters_at_work': 8000, 'case_pool_shut_down_under_a_waiting_unregistration': 5000}},
         {'name': 'c19_tsan', 'src': ['harness/C19_tsan.cpp'], 'variant': 'tsan', 'fuzz': False, 'coverage': False, 'quick_n': 30000, 'thorough_n': 240000, 'maxlen': 16, 'min_nontrivial': 10000, 'budget': 300, 'repro_min': 1},
     ],
 }
@@ -434,7 +434,7 @@ _LATER = {
     'C15': 'Also: matcher objects that held a pattern of another kind before (negated, numeric range, literal, regex, comma list); SegmentedStringMatcher objects given two patterns in a row, either possibly negated as a whole; PathMatcher holding 1-4 path patterns of depth 1-2 (one possibly removed again) against all paths over a 5-name alphabet, with and without leading slash, compared with a pattern-by-pattern, clause-by-clause evaluation.',
     'C16': 'Also: far-out indices (0xFFFFFFFF = a failed search passed on, 0x80000000, 0x7FFFFFFF) for RemoveItemAt / ReplaceItemAt / IsIndexValid / GetWithDefault / RemoveItemAtWithDefault; InsertItemsAt with a sub-range of the Queue itself.',
     'C17': 'Also: the char-typed tests (StartsWith / EndsWith / Equals and their IgnoreCase forms) asked about the String\'s own first and last byte (any byte value), their case-flipped twins and a foreign byte.',
-    'C19': 'Second target (c19_tsan): 2-6 real user threads, each with clients of its own, register / submit / unregister against one shared pool of 1-4 threads, free-running under ThreadSanitizer, which sees what the scheduler cannot (a table of the pool touched outside its lock); the functional oracle runs there too. TSan silence proves nothing beyond the runs made.',
+    'C19': 'Also: in a quarter of the cases the pool is shut down in mid-history (AbstractObjectRecycler::GlobalFlushAllCachedObjects(), the public route to ThreadPool::Shutdown()) as soon as a submitter waits in an unregistration with Messages outstanding: the shutdown must return with no handler running, an unregistration that returns from then on must find no handler of its client running and an in-order, duplicate-free prefix handled (what was pending is dropped with the pool, by design), later submissions may be refused. Second target (c19_tsan): 2-6 real user threads, each with clients of its own, register / submit / unregister against one shared pool of 1-4 threads, free-running under ThreadSanitizer, which sees what the scheduler cannot (a table of the pool touched outside its lock); the functional oracle runs there too. TSan silence proves nothing beyond the runs made.',
     'C20': 'Second target (c20_server): the pulse tree as the ReflectServer event loop drives it, under the library clock moved with SetPerProcessRunTime64Offset(): the server object, sessions, their gateways, session factories (ready or not ready to accept) and plain nodes below the server and below factories answer GetPulseTime() with generated times; one step = ServerProcessLoop(0, &next). Oracle: every participant that is part of the server was asked before the wait, the reported wake-up equals the minimum of the answers, a participant whose time is at or before the clock reading taken before the cycle has fired, none whose time is after the reading taken after the cycle has, scheduled time = requested time, never twice per cycle, never outside the loop, never after leaving. First target also: GetPulseTime() answers that invalidate a child or adopt a detached node.',
 }
 for _k, _v in _LATER.items():
